@@ -988,7 +988,7 @@ def run(ctx: common.Ctx):
         ctx.expect(all(same_bits(b3[k], sws[k]) for k in ('vorticity', 'divergence', 'potential')),
                    'xarray-roundtrip', 'shallow-water state not bit-identical after the round trip', sinp)
         # through a NetCDF file (only sigma / pressure / layer attrs that NetCDF can hold)
-        if i % 4 == 0:
+        if i % 4 == 0 or (vk == 'pressure' and layers == 1):
           path = os.path.join(tmpdir, f'ds_{i}.nc')
           try:
             xu.save_netcdf(ds, path)
@@ -997,15 +997,19 @@ def run(ctx: common.Ctx):
             saved = False
             ctx.dist[f'netcdf-skipped:{type(e).__name__}'] += 1
           if saved:
-            ds4 = xu.open_netcdf(path)
-            b4 = xu.xarray_to_primitive_eq_data(ds4, tracers_to_include=tracer_names)
-            ctx.expect(all(same_bits(b4[k], data[k]) for k in ['vorticity', 'divergence', 'temperature_variation',
-                                                              'log_surface_pressure']),
-                       'netcdf-roundtrip', 'state read back from NetCDF is not bit-identical', sinp)
-            why = same_discretisation(coords, xu.coordinate_system_from_attrs(ds4.attrs))
-            ctx.expect(why is None, 'netcdf-roundtrip', f'coordinate system from NetCDF attrs differs: {why}', sinp)
-            ctx.dist['netcdf-roundtrip'] += 1
-            os.remove(path)
+            # NetCDF hands a 1-element attribute back as a scalar: single pressure level (repaired in 55ef2a8)
+            nkey = 'netcdf-single-pressure-level' if (vk == 'pressure' and layers == 1) else 'netcdf-roundtrip'
+            with ctx.impl(nkey, sinp, what='reading the state / coordinate system back from NetCDF raised'):
+              ds4 = xu.open_netcdf(path)
+              b4 = xu.xarray_to_primitive_eq_data(ds4, tracers_to_include=tracer_names)
+              ctx.expect(all(same_bits(b4[k], data[k]) for k in ['vorticity', 'divergence', 'temperature_variation',
+                                                                'log_surface_pressure']),
+                         'netcdf-roundtrip', 'state read back from NetCDF is not bit-identical', sinp)
+              why = same_discretisation(coords, xu.coordinate_system_from_attrs(ds4.attrs))
+              ctx.expect(why is None, nkey, f'coordinate system from NetCDF attrs differs: {why}', sinp)
+              ctx.dist[nkey] += 1
+            if os.path.exists(path):
+              os.remove(path)
       # (3) nodal data dictionaries: xarray_to_data_dict adds the singleton level of surface fields
       if layers != 1:
         n = coords.horizontal.nodal_shape
@@ -1015,6 +1019,26 @@ def run(ctx: common.Ctx):
           b5 = xu.xarray_to_data_dict(ds5)
           ctx.expect(same_bits(b5['u'], dd['u']) and same_bits(b5['sp'], dd['sp'][:, None]), 'xarray-roundtrip',
                      'xarray_to_data_dict(data_to_xarray(d)) differs from d (surface fields with singleton level)', sinp)
+  # deterministic probe of the repaired defect 55ef2a8: one pressure level through a NetCDF file
+  for nl in (1, 2):
+    g0 = sh.Grid(longitude_wavenumbers=2, total_wavenumbers=3, longitude_nodes=7, latitude_nodes=3,
+                 latitude_spacing='equiangular')
+    c0 = cs.CoordinateSystem(g0, vi.PressureCoordinates(np.array([530.67, 600.0][:nl])))
+    pinp = dict(vertical='pressure', centers=[530.67, 600.0][:nl], grid='M=2 L=3 nlon=7 nlat=3 equiangular')
+    ctx.case(('netcdf-pressure', nl), nontrivial=True)
+    path = os.path.join(tmpdir, f'single_{nl}.nc')
+    with ctx.impl('netcdf-single-pressure-level' if nl == 1 else 'netcdf-roundtrip', pinp,
+                  what='coordinate system with pressure levels written to / read from NetCDF raised'):
+      u0 = special(arr((2, nl) + g0.modal_shape))
+      ds0 = xu.data_to_xarray({'u': u0}, coords=c0, times=np.arange(2))
+      xu.save_netcdf(ds0, path)
+      ds1 = xu.open_netcdf(path)
+      why = same_discretisation(c0, xu.coordinate_system_from_attrs(ds1.attrs))
+      ctx.expect(why is None and same_bits(ds1['u'].values, u0),
+                 'netcdf-single-pressure-level' if nl == 1 else 'netcdf-roundtrip',
+                 f'coordinate system / data from NetCDF differ: {why}', pinp)
+    if os.path.exists(path):
+      os.remove(path)
   try:
     os.rmdir(tmpdir)
   except OSError:
